@@ -293,11 +293,13 @@ releases the wait group; the joiners enter first. -/
 def forceDelete (line : Nat) (p : Tid) (pid : Nat) : M Unit := do
   let st ← get
   let leaderIsLk : Bool := match st.cur.lookup p with | some q => lkLeader q | none => false
+  let leaderNil : Bool := st.s.cfg.asrt && (match st.cur.lookup p with | some q => q.nilv && q.ran | none => false)
   if (← pcOf p) = .d0 ∨ (← pcOf p) = .g6 then
     for (g, o) in st.cur do
       -- (a joiner that panicked / got the nil value joins the first panicking flight that is deleted while it is invoked)
       if ((← pcOf g) = .l0 ∨ (← pcOf g) = .p0) ∧ !o.ran ∧ g ≠ p ∧
           ((source o = some pid ∧ !o.lkerr) ∨ ((o.panicked ∨ zeroJoiner o) ∧ st.s.pn p ∧ st.s.key g = st.s.key p)
+            ∨ (o.panicked ∧ leaderNil ∧ st.s.key g = st.s.key p)
             -- (a call with a cancelled context of its own is not pulled in: it can lead a flight of its own later)
             ∨ (o.lkerr ∧ !o.deadCtx ∧ leaderIsLk ∧ st.s.key g = st.s.key p)) then
         preMiss line g
@@ -375,7 +377,11 @@ def onEvent (e : Ev) : M Unit := do
       -- create succeeded (or, `doTake`: the query reported not-found and the placeholder is what gets stored: `ek = 5`);
       -- the store is placed lazily (forceDelete)
       if o.serr then tag "rm-model-not-found-placeholder-stored-as-instance"
-      adv ln g (o.id + 1) .g6
+      -- (a loader that returned (nil, nil) under a user that asserts the type: the nil instance `RM.nilInst`)
+      if o.nilv && (← get).s.cfg.asrt then
+        tag "rm-model-nil-instance-stored"
+        adv ln g RM.nilInst .g6
+      else adv ln g (o.id + 1) .g6
   | .ret =>
     let mut zeroOk := false
     if o.ran then
@@ -416,6 +422,7 @@ def onEvent (e : Ev) : M Unit := do
           let explains : Bool := source o == some pid
             || (o.val.isSome && (match po with | some q => !q.ran && !lkLeader q | none => false))
             || ((o.panicked || zeroJoiner o) && (match po with | some q => q.spanic | none => false))
+            || (o.panicked && (match po with | some q => q.nilv && q.ran | none => false))
           if explains then
             tag "rm-model-joined-flight"
             advs ln g [.l1, .w0, .w1]
